@@ -50,6 +50,9 @@ func scopeProgram(drv *lib.Driver, dir, src string) ([]scopeOcc, *lib.Session, e
 	return occs, sess, nil
 }
 
+// a table with methods: implicit self, explicit parameters, calls through ':' and '.'
+const scopeMethodBlock = "local mt = {}\nfunction mt:m1(p, p2)\n  return self, p, p2, mt\nend\nfunction mt.m2(q)\n  return mt:m1(q, q)\nend\nprint(mt, mt.m2)\n"
+
 // properties whose programs are also laid out with several statements / blocks on one line
 var scopeCompactProps = map[string]bool{"C06": true, "C11": true, "C12": true}
 
@@ -240,6 +243,79 @@ func c06Globals(res *lib.Result, tier string, root *lib.Rng) error {
 				res.Dist("global-family")
 				if strings.Join(got, " ") != strings.Join(want, " ") {
 					res.AddViolation("impl-vs-spec", fmt.Sprintf("references of the global %s: [%s], its occurrences are [%s]", name, strings.Join(got, " "), strings.Join(want, " ")), caseText, false)
+				}
+			}
+		}
+		sess.Close()
+		os.RemoveAll(dir)
+	}
+	// module twins: two files with the same layout, each returning its own local table M (the search for a
+	// returned local spans the workspace): the references of M in one file must not list the other file's M
+	nTw := 6
+	if tier == "thorough" {
+		nTw = 200
+	}
+	for wi := 0; wi < nTw; wi++ {
+		r := root.Fork(uint64(6500000 + wi))
+		body := []string{"local M = {}"}
+		for k := 0; k < 1+r.Intn(3); k++ {
+			switch r.Intn(3) {
+			case 0:
+				body = append(body, fmt.Sprintf("M.v%d = %d", k, k))
+			case 1:
+				body = append(body, fmt.Sprintf("function M.f%d(a)", k), "  return M, a", "end")
+			default:
+				body = append(body, fmt.Sprintf("function M:g%d()", k), "  return M", "end")
+			}
+		}
+		body = append(body, "return M")
+		text := strings.Join(body, "\n") + "\n"
+		files := map[string]string{"moda.lua": text, "modb.lua": text, "user.lua": "local a = require(\"moda\")\nlocal b = require(\"modb\")\nprint(a, b)\n"}
+		dir := lib.ScratchDir(fmt.Sprintf("c06t%d", wi))
+		if err := lib.WriteWorkspace(dir, files); err != nil {
+			return err
+		}
+		sess, err := lib.StartSession(dir, lib.AllChecksOptions())
+		if err != nil {
+			os.RemoveAll(dir)
+			return err
+		}
+		for _, f := range []string{"moda.lua", "modb.lua"} {
+			sess.DidOpen(f, files[f])
+		}
+		sess.Sync()
+		for _, f := range []string{"moda.lua", "modb.lua"} {
+			var want []string
+			toks := identTokens(f, files[f])
+			for _, p := range toks {
+				if p.name == "M" {
+					want = append(want, fmt.Sprintf("%s:%d:%d", p.file, p.line, p.col))
+				}
+			}
+			sort.Strings(want)
+			for _, p := range toks {
+				if p.name != "M" {
+					continue
+				}
+				caseText := fmt.Sprintf("references at %s %d:%d (M) in two files with this text:\n%s", p.file, p.line, p.col, text)
+				lib.Breadcrumb("C06 " + caseText)
+				locs, err := sess.References(p.file, p.line, p.col, true)
+				if err != nil {
+					res.AddViolation("crash-or-timeout", err.Error(), caseText, false)
+					continue
+				}
+				var got []string
+				for _, l := range locs {
+					if sess.Rel(l.URI) == "user.lua" {
+						continue // the requiring file's alias of the module may be listed
+					}
+					got = append(got, fmt.Sprintf("%s:%d:%d", sess.Rel(l.URI), l.Range.Start.Line, l.Range.Start.Character))
+				}
+				sort.Strings(got)
+				res.Count(fmt.Sprintf("tw%d/%s:%d:%d", wi, p.file, p.line, p.col), true)
+				res.Dist("module-twins")
+				if strings.Join(got, " ") != strings.Join(want, " ") {
+					res.AddViolation("impl-vs-spec", fmt.Sprintf("references of the module table M of %s: [%s], its occurrences are [%s]", f, strings.Join(got, " "), strings.Join(want, " ")), caseText, false)
 				}
 			}
 		}
